@@ -25,6 +25,7 @@ class C07(Prop):
     rule = ("overall degree functions as tables of small rationals (zeros included) on 0..14, probability vectors of length 1-4 with "
             "rational entries (a zero entry in 10% of cases to reach the ZeroDivisionError branch), degree ranges inside 0..12, delta targets "
             "inside, at both ends and outside the range; both loaders, direct and through the dispatching entry point, on exact rationals; "
+            "plus four double-precision runs at degrees 20-1060 where raw split weights are tiny, judged against the exact reference to 1e-9; "
             "non-trivial = at least two degrees in range and a degree with at least two splits; distinct = distinct case")
     assumptions = ["the overall degree function and the probabilities are exact rationals (the real code runs on an exact number type)"]
     model_scope = "modelled: joint_degree_split_degree.py and joint_degree_delta.py in full"
@@ -46,6 +47,58 @@ class C07(Prop):
             c["target"] = rng.choice([lo, max(lo, hi - 1), hi, hi + 2, rng.randint(lo, max(lo, hi))])
         return c
 
+    def exhaustive(self, tier):
+        # double-precision runs at degrees where the raw split weights are tiny (near the subnormal range) or where the first
+        # topology's weight underflows: the property speaks about every degree range, and the arithmetic the library is normally
+        # used with is float.  Judged against the exact reference with a relative tolerance; not sent to the model.
+        for probs, lo, hi, kind in ((["1/2", "1/2"], 1040, 1043, "split"), (["1/2", "1/2"], 1055, 1058, "delta"),
+                                    (["1/10", "9/10"], 330, 333, "split"), (["4/5", "1/5"], 20, 26, "split")):
+            c = {"kind": kind, "float": True, "probs": probs, "lo": lo, "hi": hi, "ntop": 2, "sizes": [2, 3],
+                 "fp": [[k, rs(Fraction(1, k + 1))] for k in range(lo, hi)]}
+            if kind == "delta":
+                c["target"] = lo + 1
+            yield c
+
+    def _float_obs(self, case):
+        from gcmpy.names.joint_degree_names import JointDegreeNames as JN
+        from gcmpy.joint_degree.joint_degree_type import JointDegreeType as JT
+        from gcmpy.joint_degree.joint_degree_factory import JointDegreeFactory
+        d = {k: float(Fraction(v)) for k, v in case["fp"]}
+        p = {JN.FP: lambda k: d.get(int(k), 0.0), JN.PROBS: [float(Fraction(x)) for x in case["probs"]],
+             JN.MOTIF_SIZES: list(case["sizes"]), JN.LOW_HIGH_DEGREE_BOUND: (case["lo"], case["hi"])}
+        t = JT.SPLIT_DEGREE
+        if case["kind"] == "delta":
+            p[JN.TARGET_K] = case["target"]
+            t = JT.DELTA
+        p[JN.JOINT_DEGREE_TYPE] = t.value
+        obj = JointDegreeFactory.resolve_joint_degree(t, p)
+        return {"float_table": [[list(k), repr(float(v))] for k, v in obj.jdd.items()]}
+
+    def _float_oracle(self, case, obs):
+        import math
+        status, want = self._reference(case)
+        vals = {tuple(k): float(v) for k, v in obs["float_table"]}
+        if any(math.isnan(v) or math.isinf(v) for v in vals.values()):
+            k = next(k for k, v in vals.items() if math.isnan(v) or math.isinf(v))
+            return [f"not-normalised: in double precision joint degree {k} has mass {vals[k]} (degrees {case['lo']}..{case['hi'] - 1}, probs {case['probs']})"]
+        f = []
+        tot = sum(vals.values())
+        if abs(tot - 1) > 1e-9:
+            f.append(f"not-normalised: in double precision the total mass is {tot!r}")
+        edges = lambda jd: sum((i + 1) * x for i, x in enumerate(jd))
+        for k in range(case["lo"], case["hi"]):
+            mass = sum(v for jd, v in vals.items() if edges(jd) == k)
+            w = float(sum(v for jd, v in want.items() if edges(jd) == k))
+            if abs(mass - w) > 1e-9 * max(w, 1e-300) and not f:
+                f.append(f"class-mass: in double precision joint degrees using {k} edges carry {mass!r}, the degree function prescribes {w!r}")
+        if not f:
+            for jd, w in want.items():
+                w = float(w)
+                if w > 1e-12 and abs(vals.get(jd, 0.0) - w) > 1e-6 * w:
+                    f.append(f"within-class: in double precision joint degree {jd} has mass {vals.get(jd)!r} instead of {w!r}")
+                    break
+        return f
+
     def _build(self, case, path):
         from gcmpy.names.joint_degree_names import JointDegreeNames as JN
         from gcmpy.joint_degree.joint_degree_type import JointDegreeType as JT
@@ -64,6 +117,8 @@ class C07(Prop):
         return JointDegreeDistribution.load_joint_degree(p)
 
     def impl(self, case):
+        if case.get("float"):
+            return self._float_obs(case)
         res = {}
         for path in ("direct", "load"):
             try:
@@ -74,6 +129,8 @@ class C07(Prop):
         return res
 
     def request(self, case, obs):
+        if case.get("float"):
+            return None
         r = {"op": "c07", "kind": case["kind"], "fp": case["fp"], "probs": case["probs"], "lo": case["lo"], "hi": case["hi"]}
         if case["kind"] == "delta":
             r["target"] = case["target"]
@@ -87,6 +144,8 @@ class C07(Prop):
     def project(self, case, obs):
         if "exc" in obs:
             return {"exc": obs["exc"]}
+        if case.get("float"):
+            return {}
         d = obs["direct"]
         return {"direct": d if "exc" in d else {"table": sorted([k, v] for k, v, _ in d["table"])}}
 
@@ -115,6 +174,8 @@ class C07(Prop):
     def oracle(self, case, obs):
         if "exc" in obs:
             return [f"raised: {obs['exc']}: {obs.get('msg', '')[:80]}"]
+        if case.get("float"):
+            return self._float_oracle(case, obs)
         f = []
         d, l = obs["direct"], obs["load"]
         if json.dumps(d, sort_keys=True) != json.dumps(l, sort_keys=True):
@@ -151,12 +212,17 @@ class C07(Prop):
         return f
 
     def nontrivial(self, case, obs):
+        if case.get("float"):
+            return "exc" not in obs
         return "exc" not in obs and case["hi"] - case["lo"] >= 2 and case["ntop"] >= 2 and case["hi"] > 2 and \
             "table" in obs.get("direct", {})
 
     def stats(self, case, obs, hist):
         hist["kind_" + case["kind"]] = hist.get("kind_" + case["kind"], 0) + 1
         hist["t_" + str(case["ntop"])] = hist.get("t_" + str(case["ntop"]), 0) + 1
+        if case.get("float"):
+            hist["double_precision_runs"] = hist.get("double_precision_runs", 0) + 1
+            return
         if "exc" not in obs and "exc" in obs["direct"]:
             hist["zero_division_branch"] = hist.get("zero_division_branch", 0) + 1
         if case["kind"] == "delta":
@@ -164,6 +230,8 @@ class C07(Prop):
             hist["target_" + pos] = hist.get("target_" + pos, 0) + 1
 
     def shrink(self, case):
+        if case.get("float"):
+            return
         if case["hi"] - case["lo"] > 1:
             c = dict(case); c["hi"] = case["hi"] - 1; yield c
             c = dict(case); c["lo"] = case["lo"] + 1; yield c
